@@ -2,22 +2,25 @@
 package mountlib
 
 import (
-	"flag"
 	"os"
 	"strconv"
 	"time"
 
 	"verif/mc"
+
+	flag "github.com/chrislusf/seaweedfs/weed/util/fla9"
 )
 
 // QuietGlog sends glog output to files in a scratch directory instead of
 // stderr; the returned function removes the directory.
 func QuietGlog() func() {
 	dir := mc.TempDir("glog")
-	flag.Set("logtostderr", "false")
-	flag.Set("alsologtostderr", "false")
-	flag.Set("stderrthreshold", "FATAL")
-	flag.Set("logdir", dir)
+	// glog registers its flags with seaweedfs' own flag package (util/fla9)
+	for _, kv := range [][2]string{{"logtostderr", "false"}, {"alsologtostderr", "false"}, {"stderrthreshold", "FATAL"}, {"logdir", dir}} {
+		if err := flag.Set(kv[0], kv[1]); err != nil {
+			mc.Fatal("glog flag %s: %v", kv[0], err)
+		}
+	}
 	return func() { os.RemoveAll(dir) }
 }
 
